@@ -5,6 +5,17 @@ OUTSIDE = ("statistical quality of ids / 0x20 bits (RNG is a stub); kernel socke
            "message bytes (record layer abstract: the parser stub hands out an abstract response)")
 ASSUMPTIONS = mjobs.ASSUMPTIONS
 
+def c17_validate_jobs(tier):
+    import importlib.util
+    p = os.path.join(os.path.dirname(os.path.abspath(__file__)), "..", "C17", "jobs.py")
+    spec = importlib.util.spec_from_file_location("jobs_C17_reuse", p)
+    m = importlib.util.module_from_spec(spec); spec.loader.exec_module(m)
+    out = []
+    for j in m.jobs(tier, 0):
+        j = dict(j); j["harness"] = "../C17/" + j["harness"]
+        out.append(j)
+    return out
+
 def jobs(tier, seed):
     J = mjobs.answer_jobs(tier)
     for i, nm in enumerate(["aB1.c", "x-Y_z.9", "abcdefghi"]):
@@ -15,4 +26,10 @@ def jobs(tier, seed):
                       cbmc=["--unwinding-assertions"], witnesses=["end"],
                       bound="generate_unique_qid with 2 live ids (all 16-bit values) and up to 3 draws; ares_apply_dns0x20 on "
                             "the name '%s' for all random bit patterns" % nm))
+    J.append(dict(name="addr_eq", harness="addr_eq.c", real=["src/lib/ares_socket.c"], support=["vp_rt.c", "memloops.c"], unwind=18,
+                  backend="cadical", mem_gb=6, witnesses=["end", "ipv6 match"],
+                  bound="ares_sockaddr_addr_eq for ALL IPv4/IPv6 address pairs and family combinations"))
+    # "passes the DNS-cookie checks": the cookie verdict is symbolic in answer_step; the real verdict function is the
+    # subject of C17's validate jobs, re-run here so that this check is self-contained
+    J += c17_validate_jobs(tier)
     return J
